@@ -63,6 +63,11 @@ fn branchers() -> Vec<BrancherSpec> {
     v.push(BrancherSpec::DynamicSplit(0, 0));
     v.push(BrancherSpec::DynamicSplit(9, 13));
     v.push(BrancherSpec::DynamicSplit(5, 2));
+    // every variable selector (and every value selector) once inside a DynamicBrancher, which
+    // forwards events only to the branchers that subscribed to them
+    for i in 0..14 {
+        v.push(BrancherSpec::DynamicSplit(i, (i * 5 + 3) % 14));
+    }
     for s in 0..4 {
         v.push(BrancherSpec::Alternating(s, 1, 4));
         v.push(BrancherSpec::Alternating(s, 9, 7));
